@@ -101,7 +101,7 @@ func c19Baselines(r *core.Result, sc scen.Scenario) []string {
 
 func c19Depth(tier string) int {
 	if tier == "thorough" {
-		return 3
+		return 4
 	}
 	return 2
 }
@@ -541,7 +541,7 @@ func init() {
 				"dependent_steps_observed":      r.Counters["dependent_steps"],
 			}
 		},
-		Rule:        "21 scopes (20 ecosystems + VERS), each with shared Ecosystem/Version/VersionRange values and a menu of 12-24 operations (parsing, Compare in both orders, Contains on comparator and shorthand ranges, String, and Compare on operand pairs whose concatenation under some separator collides; VERS: 14 calls incl. the same constraint text under different schemes). (a) history search: EVERY operation sequence of length <= 2 (quick) / 3 (thorough) on fresh shared values; after every operation the deep snapshot (reflect+unsafe, unexported fields, slice capacity and backing array) of the shared values must be unchanged and the result must equal the result of that operation alone in a fresh process; states = distinct snapshots of values + all package-level variables. (b) interleavings: every unordered pair of the first 6 (thorough: all) operations plus all collision operations as 2 real goroutines on the same shared values under a cooperative scheduler with a scheduling point before every statement (overlay-injected); one execution with a snapshot after every step measures writing steps, then EVERY schedule with at most 1 preemption is executed (thorough: also 3-thread scenarios); results must equal the sequential results, no deadlock. (c) a separate free-running -race binary runs every ordered pair of operations concurrently on shared values (10 / 100 repeats) plus 8x all operations at once. distinct_nontrivial = scenarios + sequences.",
+		Rule:        "21 scopes (20 ecosystems + VERS), each with shared Ecosystem/Version/VersionRange values and a menu of 12-24 operations (parsing, Compare in both orders, Contains on comparator and shorthand ranges, String, and Compare on operand pairs whose concatenation under some separator collides; VERS: 14 calls incl. the same constraint text under different schemes). (a) history search: EVERY operation sequence of length <= 2 (quick) / 4 (thorough) on fresh shared values; after every operation the deep snapshot (reflect+unsafe, unexported fields, slice capacity and backing array) of the shared values must be unchanged and the result must equal the result of that operation alone in a fresh process; states = distinct snapshots of values + all package-level variables. (b) interleavings: every unordered pair of the first 6 (thorough: all) operations plus all collision operations as 2 real goroutines on the same shared values under a cooperative scheduler with a scheduling point before every statement (overlay-injected); one execution with a snapshot after every step measures writing steps, then EVERY schedule with at most 1 preemption is executed (thorough: also 3-thread scenarios); results must equal the sequential results, no deadlock. (c) a separate free-running -race binary runs every ordered pair of operations concurrently on shared values (10 / 100 repeats) plus 8x all operations at once. distinct_nontrivial = scenarios + sequences.",
 		Assumptions: []string{"interleavings are explored at statement granularity of the repository's own code; below that and for weak-memory effects the free-running -race pass is the (dynamic) complement", "standard-library internals (regexp caches) are trusted to be synchronised", "code that blocks on real locks is released and reported as not explored (exhaustive:false), never as a violation"},
 	})
 }
